@@ -114,6 +114,15 @@ def sync(atoks, new_real):
             q = fwd[p - 1] + 1
         elif p == len(old_real) and not prev_ok:
             return 'lost', None, changes
+        elif re.match(r'\s*->\s*\(', t[1]):
+            # rule T4 (logged; added for unit float_to_prim_fbig): the contract of a closure (rule D9: `|x| /*@ -> (o: T)
+            # requires .. ensures .. @*/ body`) whose two neighbouring real tokens both vanished -- the closure expression was
+            # removed by the code change -- is dropped.  A closure contract only GIVES facts about a closure to the code
+            # around it; without it nothing becomes provable that was not before (if the closure still exists in another
+            # shape it simply has no postcondition any more), so the changed function is judged by its own contract
+            # instead of ending as "annotation anchors lost".
+            changes.append(('drop-closure-contract-without-closure', [('ann', ' '.join(t[1].split())[:120])], []))
+            continue
         else:
             return 'lost', None, changes
         # rule T2 (logged): a block that sat INSIDE the item (in front of its final `}`) stays inside it.  When a code
